@@ -763,8 +763,13 @@ func (opts *rootOpts) processRef(ctx context.Context, s ConfigSync, src, tgt ref
 	default:
 	}
 
-	// run backup
-	if tgtExists && !tgtMatches && s.Backup != "" {
+	// run backup, unless the target already holds the digest that is about to be written
+	// (with a platform configured that is the platform's image, not the index the match was computed from)
+	tgtSame := tgtMatches
+	if src.Digest != "" {
+		tgtSame = tgtExists && src.Digest == manifest.GetDigest(mTgt).String()
+	}
+	if tgtExists && !tgtSame && s.Backup != "" {
 		// expand template
 		data := struct {
 			Ref  ref.Ref
